@@ -220,7 +220,7 @@ theorem invA_send (c : Cfg) (hw : WF c) (s : St) (sh' : Sh) (pc' : SPc) (hi : In
     rw [hpc] at h
     simp only [sstep] at h
     have hm := hi.swin m (Or.inl hpc)
-    by_cases h1 : s.sh.sock ≠ .open
+    by_cases h1 : s.sh.sock.wfail = true
     · simp [h1] at h; obtain ⟨rfl, rfl⟩ := h
       refine ⟨?_, hi.rdone, ?_, hi.rread, hi.rcommit, ?_⟩
       · simpa [cnt, hpc] using hwg
@@ -456,6 +456,10 @@ theorem invA_env (c : Cfg) (hw : WF c) (s s' : St) (e : Env) (hi : InvA c s)
   cases e with
   | peerClose =>
     simp only [estep] at h
+    by_cases h1 : s.sh.sock = .open ∨ s.sh.sock = .peerShut <;> simp [h1] at h
+    subst h; exact ⟨hi.wg, hi.rdone, hi.sdone, hi.rread, hi.rcommit, hi.swin⟩
+  | peerShut =>
+    simp only [estep] at h
     by_cases h1 : s.sh.sock = .open <;> simp [h1] at h
     subst h; exact ⟨hi.wg, hi.rdone, hi.sdone, hi.rread, hi.rcommit, hi.swin⟩
   | kaExpire =>
@@ -541,7 +545,7 @@ theorem sstep_wmu (c : Cfg) (hw : WF c) (sh sh' : Sh) (pc pc' : SPc)
       obtain ⟨rfl, rfl⟩ := h; rfl
   | write m =>
     simp only [sstep] at h
-    by_cases h1 : sh.sock ≠ .open
+    by_cases h1 : sh.sock.wfail = true
     · simp [h1] at h; obtain ⟨rfl, rfl⟩ := h; rfl
     · by_cases h2 : sh.peerReads = true <;> simp [h1, h2] at h
       obtain ⟨rfl, rfl⟩ := h; rfl
@@ -800,6 +804,10 @@ theorem invW_env (c : Cfg) (hw : WF c) (s s' : St) (e : Env) (hi : InvW s)
     (h : estep c s e = some s') : InvW s' := by
   cases e with
   | peerClose =>
+    simp only [estep] at h
+    by_cases h1 : s.sh.sock = .open ∨ s.sh.sock = .peerShut <;> simp [h1] at h
+    subst h; exact ⟨hi.proc, hi.w, hi.other⟩
+  | peerShut =>
     simp only [estep] at h
     by_cases h1 : s.sh.sock = .open <;> simp [h1] at h
     subst h; exact ⟨hi.proc, hi.w, hi.other⟩
